@@ -1,5 +1,159 @@
 import SmtpV.Model.Parse
 import SmtpV.Spec.Rfc5321
-/-! # C11 (theorems follow) -/
+/-!
+# C11 — MAIL/RCPT arguments reach the backend exactly as sent, or are refused
+
+Model level (`Parse.parsePath` and friends; tied to parse.go by the `parse` correspondence, judged on the
+implementation by the reference grammar `Spec.Rfc5321`).  Proved here: on the class of paths every real client
+sends — `<local@domain>` with a dot-string local part — the parser returns exactly that mailbox and leaves exactly
+what follows the closing bracket (the parameters); and a special character in an unquoted local part refuses the
+whole command.  Quoted local parts, source routes and the parameter values are decided by the reference-grammar
+judge and the correspondence (four leniencies of the parser are known findings).
+-/
 namespace SmtpV.Props.C11
+open SmtpV SmtpV.Text SmtpV.Parse
+
+/-- octets allowed in an unquoted local part here: anything but `@` and the specials the parser stops at -/
+def lpOk (b : Byte) : Bool := !(b == 64) && !isDotStringStop b
+
+/-- octets of a domain as the parser delimits it: anything but SP, HT and `>` -/
+def domOk (b : Byte) : Bool := !(b == SP || b == HT || b == 62)
+
+theorem parseDotString_lp (lp t acc : Bytes) (h : lp.all lpOk = true) :
+    parseDotString (lp ++ 64 :: t) acc = some (acc.reverse ++ lp, 64 :: t) := by
+  induction lp generalizing acc with
+  | nil => simp [parseDotString]
+  | cons c lp ih =>
+    simp only [List.all_cons, Bool.and_eq_true] at h
+    have hc := h.1
+    simp only [lpOk, Bool.and_eq_true, Bool.not_eq_true'] at hc
+    simp only [List.cons_append, parseDotString, hc.1, hc.2, Bool.false_eq_true, if_false]
+    rw [ih _ h.2]
+    simp
+
+theorem takeWhile_dom (dom rest : Bytes) (h : dom.all domOk = true) :
+    (dom ++ 62 :: rest).takeWhile (fun ch => !(ch == SP || ch == HT || ch == 62)) = dom ∧
+    (dom ++ 62 :: rest).dropWhile (fun ch => !(ch == SP || ch == HT || ch == 62)) = 62 :: rest := by
+  induction dom with
+  | nil => simp
+  | cons c dom ih =>
+    simp only [List.all_cons, Bool.and_eq_true] at h
+    have hc : (!(c == SP || c == HT || c == 62)) = true := h.1
+    obtain ⟨i1, i2⟩ := ih h.2
+    simp only [List.cons_append, List.takeWhile_cons, List.dropWhile_cons, hc, if_true, i1, i2, and_self]
+
+/-- no source route: the path does not start with `@` -/
+theorem route_none (s1 : Bytes) (h : ∀ t, s1 ≠ 64 :: t) : stripRoute s1 = some s1 := by
+  unfold stripRoute
+  split
+  · rename_i t; exact absurd rfl (h t)
+  · rfl
+
+/-- **C11_exact_mailbox.**  `<local@domain>` with a non-empty dot-string local part and a non-empty domain that does
+    not end in `@`: the parser returns exactly `local@domain` and leaves exactly what follows `>`. -/
+theorem C11_exact_mailbox (lp dom rest : Bytes) (hlp : lp ≠ []) (hlpok : lp.all lpOk = true)
+    (hdom : dom ≠ []) (hdomok : dom.all domOk = true) (hlast : dom.getLast? ≠ some 64) :
+    parsePath ([60] ++ lp ++ [64] ++ dom ++ [62] ++ rest) = some (lp ++ [64] ++ dom, rest) := by
+  obtain ⟨c, lp', rfl⟩ : ∃ c lp', lp = c :: lp' := by
+    cases lp with
+    | nil => exact absurd rfl hlp
+    | cons c t => exact ⟨c, t, rfl⟩
+  have hc : lpOk c = true := by simp only [List.all_cons, Bool.and_eq_true] at hlpok; exact hlpok.1
+  have hc64 : (c == 64) = false := by simp only [lpOk, Bool.and_eq_true, Bool.not_eq_true'] at hc; exact hc.1
+  have hc34 : c ≠ 34 := by
+    intro e; subst e
+    simp [lpOk, isDotStringStop] at hc
+  have hc64' : c ≠ 64 := by simpa using hc64
+  have hshape : [60] ++ (c :: lp') ++ [64] ++ dom ++ [62] ++ rest = 60 :: c :: (lp' ++ 64 :: (dom ++ 62 :: rest)) := by simp
+  rw [hshape]
+  have hds := parseDotString_lp (c :: lp') (dom ++ 62 :: rest) [] hlpok
+  simp only [List.cons_append, List.reverse_nil, List.nil_append] at hds
+  obtain ⟨t1, t2⟩ := takeWhile_dom dom rest hdomok
+  have hsuf : hasSuffix (c :: lp' ++ [64] ++ dom) [64] = false := by
+    unfold hasSuffix
+    obtain ⟨d, dl, hd⟩ : ∃ d dl, dom = dl ++ [d] := by
+      have := List.dropLast_concat_getLast hdom
+      exact ⟨dom.getLast hdom, dom.dropLast, this.symm⟩
+    have hd64 : d ≠ 64 := by
+      intro e; apply hlast; rw [hd, e]; simp
+    rw [hd]
+    simp [List.isPrefixOf, Ne.symm hd64]
+  have hlocal : parseLocalPart (c :: (lp' ++ 64 :: (dom ++ 62 :: rest))) = some (c :: lp', 64 :: (dom ++ 62 :: rest)) := by
+    unfold parseLocalPart
+    split
+    · rename_i t heq
+      cases heq; exact absurd rfl hc34
+    · exact hds
+  have hmb : parseMailbox (c :: (lp' ++ 64 :: (dom ++ 62 :: rest))) = some (c :: lp' ++ [64] ++ dom, 62 :: rest) := by
+    unfold parseMailbox
+    simp only [hlocal, List.isEmpty_cons, Bool.false_eq_true, if_false, t1, t2, hsuf]
+  have hne : ∀ t, c :: (lp' ++ 64 :: (dom ++ 62 :: rest)) ≠ 64 :: t := by
+    intro t e; cases e; exact hc64' rfl
+  have hroute := route_none (c :: (lp' ++ 64 :: (dom ++ 62 :: rest))) hne
+  simp only [parsePath, hroute, hmb]
+  simp
+
+theorem parseDotString_stop (a t acc : Bytes) (c : Byte) (ha : a.all lpOk = true) (hc : isDotStringStop c = true) :
+    parseDotString (a ++ c :: t) acc = none := by
+  induction a generalizing acc with
+  | nil =>
+    have h64 : (c == 64) = false := by
+      cases h : c == 64 with
+      | false => rfl
+      | true => have : c = 64 := by simpa using h
+                subst this; simp [isDotStringStop, SP, HT] at hc
+    simp [parseDotString, h64, hc]
+  | cons x a ih =>
+    simp only [List.all_cons, Bool.and_eq_true] at ha
+    have hx := ha.1
+    simp only [lpOk, Bool.and_eq_true, Bool.not_eq_true'] at hx
+    simp only [List.cons_append, parseDotString, hx.1, hx.2, Bool.false_eq_true, if_false]
+    exact ih _ ha.2
+
+/-- **C11_special_refused.**  A special character (one of `( ) < > [ ] : ; \ , "` SP HT) inside an unquoted local part:
+    the path — and with it the command — is refused, whatever follows. -/
+theorem C11_special_refused (a t : Bytes) (c : Byte) (ha : a.all lpOk = true) (hc : isDotStringStop c = true)
+    (hq : a ≠ [] ∨ c ≠ 34) : parsePath ([60] ++ a ++ [c] ++ t) = none := by
+  have hshape : [60] ++ a ++ [c] ++ t = 60 :: (a ++ c :: t) := by simp
+  rw [hshape]
+  have hhead : ∀ x r, a ++ c :: t = x :: r → x ≠ 64 ∧ x ≠ 34 := by
+    intro x r hx
+    cases a with
+    | nil =>
+      simp only [List.nil_append, List.cons.injEq] at hx
+      obtain ⟨rfl, _⟩ := hx
+      refine ⟨?_, ?_⟩
+      · intro e; subst e; simp [isDotStringStop, SP, HT] at hc
+      · rcases hq with h | h
+        · exact absurd rfl h
+        · exact h
+    | cons y a' =>
+      simp only [List.cons_append, List.cons.injEq] at hx
+      obtain ⟨rfl, _⟩ := hx
+      simp only [List.all_cons, Bool.and_eq_true] at ha
+      have hy := ha.1
+      simp only [lpOk, Bool.and_eq_true, Bool.not_eq_true'] at hy
+      refine ⟨by simpa using hy.1, ?_⟩
+      intro e; subst e; simp [isDotStringStop] at hy
+  have hlocal : parseLocalPart (a ++ c :: t) = none := by
+    unfold parseLocalPart
+    split
+    · rename_i r heq
+      exact absurd rfl (hhead 34 r heq).2
+    · exact parseDotString_stop a t [] c ha hc
+  have hmb : parseMailbox (a ++ c :: t) = none := by simp [parseMailbox, hlocal]
+  have hroute := route_none (a ++ c :: t) (fun r e => (hhead 64 r e).1 rfl)
+  simp only [parsePath, hroute, hmb]
+
+/-- the null reverse-path -/
+theorem C11_null_sender (rest : Bytes) : parseReversePath ([60, 62] ++ rest) = some ([], rest) := by
+  simp [parseReversePath, hasPrefix, List.isPrefixOf, show "<>".b = [60, 62] by decide +kernel]
+
+/-! ### non-vacuity -/
+
+example : parsePath "<first.last+tag@mail.example.org> SIZE=5".b = some ("first.last+tag@mail.example.org".b, " SIZE=5".b) := by
+  decide +kernel
+
+example : parsePath "<a b@c>".b = none := by decide +kernel
+
 end SmtpV.Props.C11
